@@ -66,6 +66,7 @@ struct DyadicMap
     std::vector<std::vector<T>> v;      // v[channel][cell]
     bool with_jacobian;
     bool eager;                         // fill the density buffer while computing the coordinates (allowed by the interface)
+    int coord_return;                   // what the coordinates call returns (documented as ignored): 0 jacobian, 1 zero, 2 NaN, 3 -1
     void fill(std::vector<T> const& co, std::vector<std::size_t> const& enabled, std::vector<T>& dens) const
     {
         T J = with_jacobian ? T(1) + co[0] : T(1);
@@ -89,6 +90,9 @@ struct DyadicMap
                 co[k] = (T(c) + (r - cum) / (v[channel][c] / T(K))) / T(K);
             }
             if (eager) fill(co, enabled, dens);
+            if (coord_return == 1) return T();
+            if (coord_return == 2) return std::numeric_limits<T>::quiet_NaN();
+            if (coord_return == 3) return T(-1);
             return with_jacobian ? T(1) + co[0] : T(1);
         }
         if (!eager) fill(co, enabled, dens);
@@ -278,6 +282,7 @@ void mc_case(Rng& rng)
     map.K = K;
     map.with_jacobian = rng.below(2);
     map.eager = rng.below(2);
+    map.coord_return = (int)rng.below(4);
     for (std::size_t i = 0; i < n; ++i)
     {
         // values multiples of 1/2 with mean exactly 1
@@ -337,7 +342,7 @@ void mc_case(Rng& rng)
     auto r = hep::multi_channel_iteration(integrand, N, w, eng);
     g_lin = 0; g_channel_hits = 0; g_wc = 0;
     J info;
-    info.s("T", tname<T>::get()).s("integrator", "multi_channel").u("dims", d).u("cells", K).u("channels", n).s("weights_kind", wkind).fv("weights", w).b("jacobian", map.with_jacobian).b("eager_map", map.eager)
+    info.s("T", tname<T>::get()).s("integrator", "multi_channel").u("dims", d).u("cells", K).u("channels", n).s("weights_kind", wkind).fv("weights", w).b("jacobian", map.with_jacobian).b("eager_map", map.eager).i("coordinates_call_returns", map.coord_return)
         .u("lattice_points", N).fv("a", lin.a).fv("c", lin.c);
     ++ctx().evaluations;
     count("mc_lattices");
